@@ -405,3 +405,6 @@ CHECKS['C02']['text'] += (
     " Clock2s.v (2 440 lines) widens Clock2p's scope to infinite-server nodes, NON-pre-emptive Schedules (servers come and go, overtime, ids never reused) and non-interrupting slots: event_step_clk2s_partial / run_many_clk2s_partial / run_many_monotone2s_partial / Clk2s_means "
     "(scope_s: no capacities, no reneging, no class change while waiting, no reroute; priority pre-emption none / resume / restart / resample anywhere); fx_F12d_inside: the F-12d run is inside the scope and keeps the clock invariant (its defect is a customer never served); "
     "interrupt_resume_clock_partial (function level) for pre-emptive Schedule resume, whose event-level proof is designed in the file header but not done. clk2s_b is evaluated on every real snapshot in scope_s (bit clk2s).")
+CHECKS['C17']['text'] += (
+    " TrackerInc2c.v (280 lines, partial): event_step_fresh (every configuration: after an event the selection fields of a class-change event are the node's recorded candidate) and candq1_of_ncciq reduce the per-event hypothesis CandQ1 of the NodeClassMatrix theorems "
+    "to NcciQ (the recorded class-change candidate of a node is in its queues) on the states between events; NcciQ itself is not shown invariant (run_many_class_matrix2c_partial).")
